@@ -456,6 +456,20 @@ def stream_bbox(rep, drv, r, n):
                 return 'none' if res is None else show_bb(res)
             exp.append(impl(f))
             meta.append((name, bs))
+            # (S) union = the smallest box containing both; intersection = exactly the common pixels (None when there are none)
+            (ax0, ax1, ay0, ay1), (bx0, bx1, by0, by1) = bs
+            if ax0 < ax1 and ay0 < ay1 and bx0 < bx1 and by0 < by1 and exp[-1].startswith('ok'):
+                got = tuple(int(v) for v in exp[-1].split()[1:5])
+                if t == 2:
+                    want = (min(ax0, bx0), max(ax1, bx1), min(ay0, by0), max(ay1, by1))
+                    if got != want:
+                        rep.violation('bbox-union-not-least-box', f'BoundingBox{bs[0]} | BoundingBox{bs[1]} = {got}, the smallest box containing both is {want} '
+                                      '(ixmin, ixmax, iymin, iymax)', {'stream': 'bbox', 'op': 'union', 'args': [list(bs[0]), list(bs[1])]})
+                else:
+                    want = (max(ax0, bx0), min(ax1, bx1), max(ay0, by0), min(ay1, by1))
+                    if want[0] < want[1] and want[2] < want[3] and got != want:
+                        rep.violation('bbox-intersection-wrong', f'BoundingBox{bs[0]} & BoundingBox{bs[1]} = {got}, the common pixels are {want}',
+                                      {'stream': 'bbox', 'op': 'intersection', 'args': [list(bs[0]), list(bs[1])]})
         else:
             v = [r.randint(-5, 5) for _ in range(4)]
             lines.append('bbox.init ' + ' '.join(map(str, v)))
